@@ -25,7 +25,8 @@ ASSUMPTIONS = [
 
 PLAIN_OK = {'first', 'last', 'take', 'duc', 'batch'}
 # JSON lists are specs of objects built afresh at run time (equal but not identical: vf.keys)
-VALUES = [0, 1, 2, 3, 4, None, 'a', 'b', ['big', 0], ['str', 'ab'], ['tuple', 0, 1]]
+# -1 / -2 and 0 / 2**61-1 are unequal values with EQUAL hashes in CPython
+VALUES = [0, 1, 2, 3, 4, None, 'a', 'b', ['big', 0], ['str', 'ab'], ['tuple', 0, 1], -1, -2, 2 ** 61 - 1]
 
 
 def dec(v):
